@@ -423,9 +423,10 @@ Section V2.
         else ICont (SGarb s buf') rest []
     | SPkt s app cnt aad buf len =>
         (* GetMaxBytesToProcess: size < LENGTH_LEN ? LENGTH_LEN - size : EXPANSION + m_recv_len - size
-           (EXPANSION + m_recv_len is an unsigned 32-bit sum) *)
+           (EXPANSION + m_recv_len is an unsigned 32-bit sum);  max_read = std::min(msg_bytes.size(), max_read)
+           (the minimum is taken before converting to a count: an announced length can be 2^24) *)
         let need := if Nat.ltb (length buf) LENGTH_LEN then (LENGTH_LEN - length buf)%nat
-                    else (Z.to_nat (wrapu32 (TR_EXPANSION + len)) - length buf)%nat in
+                    else Z.to_nat (Z.min (wrapu32 (TR_EXPANSION + len) - Z.of_nat (length buf)) (Z.of_nat (length bytes))) in
         let buf' := buf ++ firstn need bytes in
         let rest := skipn need bytes in
         (* ProcessReceivedPacketBytes *)
